@@ -234,18 +234,20 @@ VARIABLES sig, np, kw
 vars == <<sig, np, kw>>
 
 Kinds(kws) == [j \in 1..Len(kws) |-> kws[j].k]
-\* kind sequences allowed in "pat" mode: at most one non-str key; the str kinds uniform or rotating
+\* kind sequences: at most one non-str key, and only next to interned keys; in "pat" mode the str kinds uniform or rotating
 PatOK(ks) ==
   LET strs == SelectSeq(ks, LAMBDA k : k # "ns")
       idx(k) == CHOOSE i \in 1..3 : StrKinds[i] = k
   IN \/ \A i \in 1..Len(strs) : strs[i] = strs[1]
      \/ \A i \in 2..Len(strs) : idx(strs[i]) = (idx(strs[i - 1]) % 3) + 1
 KindsOK(ks) == /\ Cardinality({j \in 1..Len(ks) : ks[j] = "ns"}) <= 1
+               /\ ((\E j \in 1..Len(ks) : ks[j] = "ns") => \A j \in 1..Len(ks) : ks[j] \in {"ns", "lit"})
                /\ (KindMode = "pat" => PatOK(ks))
 
 Init == sig \in Sigs /\ np = 0 /\ kw = <<>>
 
-AddPositional == /\ np < Min(MaxPos, NPos(sig) + Extra)
+AddPositional == /\ kw = <<>>          \* canonical construction order: positionals first (every case is still reachable)
+                 /\ np < Min(MaxPos, NPos(sig) + Extra)
                  /\ np' = np + 1 /\ UNCHANGED <<sig, kw>>
 
 AddKw(nm, k) == /\ Len(kw) < MaxKw
@@ -272,12 +274,14 @@ Spec == Init /\ [][Next]_vars
 Ref == Bind(sig, np, kw)
 
 (* the reference is exactly its declarative characterisation: bound XOR error *)
-RefIsDeclarative == /\ Ref.ok = ~ErrConds(sig, np, kw)
-                    /\ Ref.ok => WellBound(sig, np, kw, Ref)
-                    /\ ~Ref.ok => Ref.cls \in {"nonstr", "toomany", "multiple", "unexpected", "missing"}
+RefIsDeclarative == LET r == Ref IN
+                    /\ r.ok = ~ErrConds(sig, np, kw)
+                    /\ r.ok => WellBound(sig, np, kw, r)
+                    /\ ~r.ok => r.cls \in {"nonstr", "toomany", "multiple", "unexpected", "missing"}
 (* the generated parsing code, on both keyword representations, computes the reference *)
-ImplAgrees == \A path \in {"tuple", "dict"} : Same(ImplBind(sig, np, kw, path), Ref)
-Publish == Dump => PrintT("@@" \o ToJson(<<sig.npo, sig.npk, sig.ndef, sig.star, sig.ko, sig.ss, np,
+ImplAgrees == LET r == Ref IN \A path \in {"tuple", "dict"} : Same(ImplBind(sig, np, kw, path), r)
+Publish == Dump => LET r == Ref IN
+                   PrintT("@@" \o ToJson(<<sig.npo, sig.npk, sig.ndef, sig.star, sig.ko, sig.ss, np,
                                               [j \in 1..Len(kw) |-> <<kw[j].n, kw[j].k>>],
-                                              Ref.ok, Ref.cls, Ref.vals, Ref.args, Ref.kw>>))
+                                              r.ok, r.cls, r.vals, r.args, r.kw>>))
 =============================================================================
